@@ -184,6 +184,14 @@ impl CovComputer {
     }
 }
 
+/// Public route to the private per-record routine for the verification harness.
+#[cfg(kmertools_verif)]
+impl CovComputer {
+    pub fn verif_vectorise_one(&self, seq: &[u8], counts: &HashMap<u64, u32>) -> Vec<f64> {
+        self.vectorise_one(seq, counts)
+    }
+}
+
 #[cfg(test)]
 mod tests {
     use super::*;
